@@ -125,6 +125,8 @@ def replay(core, mod, path):
     if out["outcome"] == "harness":
         print(out["trace"], file=sys.stderr)
         return 2
+    for fid, text in out.get("known") or []:
+        print(f"KNOWN-FINDING: property={mod.PROP} {fid}: {text}")
     if sig is None:
         print(f"replay {path}: no violation on this tree (recorded: {rep['signature']})")
         return 0
@@ -191,7 +193,7 @@ def batch(core, mod, prop, seed, n, args, scratch, t0):
         if v["sig"] in seen_sigs:
             continue
         seen_sigs.add(v["sig"])
-        if len(replay_paths) >= 5:
+        if len(replay_paths) >= 3:
             break
         rng = core.rng_for(prop, seed, idx)
         spec = mod.generate(rng)
